@@ -62,12 +62,13 @@ pub const MODE_NAMES: [&str; 22] = [
     "MacroStatOptionsTextExpr",
 ];
 
-pub const CLASS_NAMES: [&str; 24] = [
+pub const CLASS_NAMES: [&str; 28] = [
     "blank", "newline", "unicode-ws", "'", "\"", ";", "/", "*", "&", "%", "digit", "ascii-name-start",
     "unicode-name-start", "(", ")", ",", "=", ".", "$", "<>", "+-", ":", "other-symbol", "other",
+    "/*", "&name", "%*", "%name",
 ];
 
-pub const COVER_WORDS: usize = (22 * 2 * 24 + 63) / 64;
+pub const COVER_WORDS: usize = (22 * 2 * 28 + 63) / 64;
 
 pub(crate) fn mode_index(mode: &LexerMode) -> usize {
     match mode {
@@ -96,8 +97,13 @@ pub(crate) fn mode_index(mode: &LexerMode) -> usize {
     }
 }
 
-pub(crate) fn char_class(c: char) -> usize {
+pub(crate) fn char_class(c: char, next: char) -> usize {
+    let next_is_name_start = next == '_' || unicode_ident::is_xid_start(next);
     match c {
+        '/' if next == '*' => 24,
+        '&' if next_is_name_start || next == '&' => 25,
+        '%' if next == '*' => 26,
+        '%' if next_is_name_start => 27,
         '\n' => 1,
         ' ' | '\t' | '\r' => 0,
         c if c.is_whitespace() => 2,
@@ -127,7 +133,7 @@ pub(crate) fn char_class(c: char) -> usize {
 
 #[inline]
 pub(crate) fn cover_index(mode: usize, checkpoint_live: bool, class: usize) -> usize {
-    (mode * 2 + usize::from(checkpoint_live)) * 24 + class
+    (mode * 2 + usize::from(checkpoint_live)) * 28 + class
 }
 
 /// The same index computation for harnesses that read `dispatch_cover`
